@@ -2,6 +2,7 @@ package main
 
 import (
 	"bytes"
+	"encoding/json"
 	"regexp"
 	"crypto/sha256"
 	"encoding/hex"
@@ -20,6 +21,7 @@ import (
 	msgv1 "cosmossdk.io/api/cosmos/msg/v1"
 	sdkmath "cosmossdk.io/math"
 	storetypes "cosmossdk.io/store/types"
+	"github.com/cosmos/cosmos-sdk/codec"
 	sdk "github.com/cosmos/cosmos-sdk/types"
 	capabilitytypes "github.com/cosmos/ibc-go/modules/capability/types"
 	"github.com/cosmos/ibc-go/v8/modules/apps/transfer"
@@ -597,6 +599,64 @@ func parseCanonGenesis(c string) (*orbtypes.GenesisState, bool) {
 	return g, true
 }
 
+var genesisSectionKeys = map[string]string{"adapter": "adapter_genesis", "dispatcher": "dispatcher_genesis", "forwarder": "forwarder_genesis", "executor": "executor_genesis"}
+
+// genesisDocJSON renders the canonical genesis string as the JSON document handed to the AppModule. Entries `nil=a,b` spell
+// the named component sections `null`, `omit=a,b` leave them out of the document.
+func genesisDocJSON(cdc codec.Codec, c string) ([]byte, bool) {
+	var body, nils, omits []string
+	for _, kv := range strings.Split(c, ";") {
+		switch {
+		case strings.HasPrefix(kv, "nil="):
+			nils = append(nils, strings.Split(kv[4:], ",")...)
+		case strings.HasPrefix(kv, "omit="):
+			omits = append(omits, strings.Split(kv[5:], ",")...)
+		default:
+			body = append(body, kv)
+		}
+	}
+	g, ok := parseCanonGenesis(strings.Join(body, ";"))
+	if !ok {
+		return nil, false
+	}
+	bz, err := cdc.MarshalJSON(g)
+	if err != nil {
+		return nil, false
+	}
+	if len(nils) == 0 && len(omits) == 0 {
+		return bz, true
+	}
+	var doc map[string]json.RawMessage
+	if err := json.Unmarshal(bz, &doc); err != nil {
+		return nil, false
+	}
+	for _, n := range nils {
+		if n == "" {
+			continue
+		}
+		k, ok := genesisSectionKeys[n]
+		if !ok {
+			return nil, false
+		}
+		doc[k] = json.RawMessage("null")
+	}
+	for _, n := range omits {
+		if n == "" {
+			continue
+		}
+		k, ok := genesisSectionKeys[n]
+		if !ok {
+			return nil, false
+		}
+		delete(doc, k)
+	}
+	out, err := json.Marshal(doc)
+	if err != nil {
+		return nil, false
+	}
+	return out, true
+}
+
 func (s *appState) genesisOp(d *driver, f []string) (out string) {
 	defer func() {
 		if r := recover(); r != nil {
@@ -608,12 +668,8 @@ func (s *appState) genesisOp(d *driver, f []string) (out string) {
 	mod := orbiter.NewAppModule(s.env.App.OrbiterKeeper)
 	switch f[0] {
 	case "genvalidate":
-		g, ok := parseCanonGenesis(f[1])
+		bz, ok := genesisDocJSON(cdc, f[1])
 		if !ok {
-			return "bad-op"
-		}
-		bz, err := cdc.MarshalJSON(g)
-		if err != nil {
 			return "bad-op"
 		}
 		if err := mod.ValidateGenesis(cdc, nil, bz); err != nil {
@@ -621,12 +677,8 @@ func (s *appState) genesisOp(d *driver, f []string) (out string) {
 		}
 		return "res=ok"
 	case "geninit":
-		g, ok := parseCanonGenesis(f[1])
+		bz, ok := genesisDocJSON(cdc, f[1])
 		if !ok {
-			return "bad-op"
-		}
-		bz, err := cdc.MarshalJSON(g)
-		if err != nil {
 			return "bad-op"
 		}
 		cfg := s.env.Cfg
